@@ -100,6 +100,7 @@ type Engine struct {
 	inSweep    bool
 	sweepStage int
 	inflight   int32
+	upmaxBusy  int32
 	keyHash    []uint64
 	keyConf    []uint64
 	pendingNew map[uint64]int // buffered new items per key hash (probes only)
@@ -111,6 +112,7 @@ type Engine struct {
 	reqAdvance int64
 	reqQuiesce int
 	reqCheck   int
+	finalProp  string // property the final expiry check reports under (C14, or C15 after a Clear)
 
 	// metrics epoch accounting (C17)
 	epochValid      bool
@@ -1171,6 +1173,13 @@ func (e *Engine) runOp(cl *client, oi int, op Op) {
 		e.clearEnd(wasClosed)
 		e.opEnd(cl)
 	case OpUpdateMaxCost:
+		// one raise at a time: two concurrent read-modify-write raises could
+		// store the smaller target last, i.e. LOWER MaxCost, which the
+		// properties (C03) exclude
+		if !atomic.CompareAndSwapInt32(&e.upmaxBusy, 0, 1) {
+			return
+		}
+		defer atomic.StoreInt32(&e.upmaxBusy, 0)
 		e.opBegin(cl, op)
 		cur := e.api.MaxCost()
 		inv := e.log(Ev{Kind: EvInvoke, Op: OpUpdateMaxCost, Task: tk, OpIx: ix, A: cur + op.Arg})
@@ -1215,6 +1224,12 @@ func (e *Engine) runOp(cl *client, oi int, op Op) {
 		e.opEnd(cl)
 	case OpQuiesce:
 		e.reqQuiesce = 1 + int(op.Arg)
+		e.finalProp = ""
+		if op.Arg == 2 {
+			// expiry must work on a cleared cache as on a new one (C15)
+			e.reqQuiesce = 2
+			e.finalProp = "C15"
+		}
 		core.Yield(SiteEpiRequest, 0)
 	case OpCheckEmpty, OpCheckFresh:
 		e.reqCheck = op.K
